@@ -119,6 +119,23 @@ func syncSource(c *Ctx, shape string) (*World, *Node) {
 				weights[v.Hash] = wt + 1
 			}
 		}
+	case "deep-with-stale-tip":
+		// a chain deeper than the initial weight window (50) next to a tip that still hangs off the genesis vertex:
+		// gossip that builds on the old tip is treated alike by the peer and by a node synced from it
+		g := a.ab.VerifSnapshot().Vertices[0]
+		st := w.NewTrx(w.wallets[0], w.wallets[1].Address(), spice.Melange{}, []byte("stale tip"))
+		sv, _ := accountant.NewVertex(st, g.Hash, g.Hash, 1, w.wallets[2])
+		w.Add(a, &sv)
+		for i := 0; i < 64; i++ {
+			t := w.NewTrx(w.wallets[0], w.wallets[1+i%2].Address(), spice.Melange{Currency: 1}, nil)
+			pv, err := w.Propose(a, &t)
+			if err == nil && (pv.LeftParentHash == sv.Hash || pv.RightParentHash == sv.Hash) {
+				// the proposal merged the side tip: hang a new one off the genesis vertex
+				st = w.NewTrx(w.wallets[0], w.wallets[1].Address(), spice.Melange{}, []byte{byte(i), 's'})
+				sv, _ = accountant.NewVertex(st, g.Hash, g.Hash, 1, w.wallets[2])
+				w.Add(a, &sv)
+			}
+		}
 	case "genesis-only":
 	}
 	return w, a
@@ -127,7 +144,7 @@ func syncSource(c *Ctx, shape string) (*World, *Node) {
 func init() {
 	sections["sync"] = func(c *Ctx) error {
 		c.Rep.Rule = "source ledgers (genesis only, chain, two-node braid with several tips) streamed by the real StreamDAG and loaded by the real LoadDag in stream / shuffled / reversed order; ledger, genesis wallet, index and balances compared; the same follow-up gossip offered to both; every single corruption (duplicate vertex, duplicate transaction, missing parent, second self-sealed vertex with and without parents, empty transaction with absent / zero-length data, non-canonical amount, the root vertex itself emptied / non-canonical / replaced) must leave the node not loaded; sync from a truncated peer; non-trivial = distinct (shape, order) or corruption kind"
-		for _, shape := range []string{"genesis-only", "chain", "braid", "diamonds", "random-dag"} {
+		for _, shape := range []string{"genesis-only", "chain", "braid", "diamonds", "random-dag", "deep-with-stale-tip"} {
 			for _, order := range []string{"stream", "shuffled", "reversed"} {
 				w, src := syncSource(c, shape)
 				info := map[string]interface{}{"section": "sync", "shape": shape, "order": order}
@@ -169,6 +186,26 @@ func init() {
 					t := w.NewTrx(w.wallets[0], w.wallets[1].Address(), amt, nil)
 					if v, err := w.Propose(third, &t); err == nil {
 						follow = append(follow, v)
+					}
+				}
+				{
+					// a vertex another node sealed on the LIGHTEST tip of the peer's ledger (an old side branch)
+					ss := src.ab.VerifSnapshot()
+					var light *accountant.Vertex
+					isTip := map[[32]byte]bool{}
+					for _, l := range ss.Leaves {
+						isTip[l] = true
+					}
+					for i := range ss.Vertices {
+						if isTip[ss.Vertices[i].Hash] && (light == nil || ss.Vertices[i].Weight < light.Weight) {
+							light = &ss.Vertices[i]
+						}
+					}
+					if light != nil {
+						t := w.NewTrx(w.wallets[0], w.wallets[1].Address(), spice.Melange{}, []byte("on the old tip"))
+						if cv, err := accountant.NewVertex(t, light.Hash, light.Hash, light.Weight+1, w.wallets[2]); err == nil {
+							follow = append([]accountant.Vertex{cv}, follow...)
+						}
 					}
 				}
 				if len(follow) > 0 {
@@ -269,6 +306,40 @@ func init() {
 			// a node that is not loaded refuses everything
 			if e := w.Add(dst, mid); dst.ab.DagLoaded() == false && errTag(e) != "notLoaded" {
 				c.Violate("C14", "unloaded-node-accepts-gossip", "AddLeaf on a node whose load failed: "+errTag(e), info)
+			}
+			w.Close()
+		}
+		// ---- a ledger whose root was sealed by ANOTHER wallet than the one that issued the genesis transaction
+		// (nothing in the sync rules demands a self-sealed root): the genesis wallet is the ISSUER of the root's
+		// transaction; on the synced node it can neither propose nor be gossiped in as an issuer.
+		{
+			w := NewWorld(c)
+			n0 := w.NewNode()
+			for i := 0; i < 4; i++ {
+				w.NewWallet()
+			}
+			g, holder, sealer, other := w.wallets[0], w.wallets[1], w.wallets[2], w.wallets[3]
+			info := map[string]interface{}{"section": "sync", "shape": "root-sealed-by-another-wallet"}
+			c.Mark(info)
+			rt := w.NewTrx(g, holder.Address(), spice.Melange{Currency: 500}, nil)
+			root, _ := accountant.NewVertex(rt, [32]byte{}, [32]byte{}, 0, sealer)
+			ct := w.NewTrx(holder, other.Address(), spice.Melange{Currency: 3}, nil)
+			child, _ := accountant.NewVertex(ct, root.Hash, root.Hash, 1, sealer)
+			err := w.Load(n0, []*accountant.Vertex{&child, &root})
+			c.Distinct("root-sealed-by-another-wallet")
+			if err == nil && n0.ab.DagLoaded() {
+				if got := n0.ab.VerifSnapshot().Genesis; got != g.Address() {
+					c.Violate("C10", "synced-node-takes-wrong-genesis-wallet", fmt.Sprintf("the root's transaction was issued by %s and sealed by %s: the synced node treats %s as the genesis wallet", w.A(g.Address()), w.A(sealer.Address()), w.A(got)), info)
+				}
+				st := w.NewTrx(g, other.Address(), spice.Melange{Currency: 1}, nil)
+				if _, perr := w.Propose(n0, &st); perr == nil {
+					c.Violate("C10", "genesis-wallet-spends", "on a node synced from a ledger whose root was sealed by another wallet, the genesis wallet's proposal was sealed", info)
+				}
+				gt := w.NewTrx(g, other.Address(), spice.Melange{Currency: 2}, nil)
+				gv, _ := accountant.NewVertex(gt, child.Hash, child.Hash, 2, sealer)
+				if aerr := w.Add(n0, &gv); aerr == nil {
+					c.Violate("C10", "genesis-wallet-spends", "on a node synced from a ledger whose root was sealed by another wallet, a gossiped vertex issued by the genesis wallet was admitted", info)
+				}
 			}
 			w.Close()
 		}
